@@ -152,3 +152,55 @@ package clientgen
 //@ func collectEnumsFromMessage(msg *protogen.Message, contexts *[]*EnumEncodingContext, seen map[string]bool)
 //@   modifies contexts
 //@   decreases spec.mdepth(msg)
+
+// ---- the emitted client file imports what its text uses (C13) ----
+
+// net/url is imported exactly when some RPC's URL code mentions the package
+//@ func (g *Generator) fileNeedsURLImport(file *protogen.File) (r bool)
+//@   requires file != nil
+//@   ensures iff: r <==> (exists i int, j int :: 0 <= i && i < len(file.Services) && 0 <= j && j < len(file.Services[i].Methods) && spec.usesURL(file.Services[i].Methods[j]))
+//@   loop 1 invariant forall i int, j int :: 0 <= i && i < _i1 && 0 <= j && j < len(file.Services[i].Methods) ==> !spec.usesURL(file.Services[i].Methods[j])
+//@   loop 2 invariant forall i int, j int :: 0 <= i && i < _i1 && 0 <= j && j < len(file.Services[i].Methods) ==> !spec.usesURL(file.Services[i].Methods[j])
+//@   loop 2 invariant forall j int :: 0 <= j && j < _i2 ==> !spec.usesURL(service.Methods[j])
+
+// bytes is imported exactly when some RPC sends a body
+//@ func (g *Generator) fileNeedsRequestBody(file *protogen.File) (r bool)
+//@   requires file != nil
+//@   ensures iff: r <==> (exists i int, j int :: 0 <= i && i < len(file.Services) && 0 <= j && j < len(file.Services[i].Methods) && spec.isBodyVerb(spec.verbOf(file.Services[i].Methods[j])))
+//@   loop 1 invariant forall i int, j int :: 0 <= i && i < _i1 && 0 <= j && j < len(file.Services[i].Methods) ==> !spec.isBodyVerb(spec.verbOf(file.Services[i].Methods[j]))
+//@   loop 2 invariant forall i int, j int :: 0 <= i && i < _i1 && 0 <= j && j < len(file.Services[i].Methods) ==> !spec.isBodyVerb(spec.verbOf(file.Services[i].Methods[j]))
+//@   loop 2 invariant forall j int :: 0 <= j && j < _i2 ==> !spec.isBodyVerb(spec.verbOf(service.Methods[j]))
+
+// the URL code of one RPC mentions net/url exactly when it has path variables, or query parameters on a body-less verb
+//@ func (g *Generator) generateURLBuilding(gf *protogen.GeneratedFile, fullPath string, pathParams []string, queryParams []annotations.QueryParam, httpMethod string)
+//@   modifies *
+//@   ensures uses_url: (count("P:url.") > old(count("P:url."))) <==> (len(pathParams) > 0 || ((httpMethod == "GET" || httpMethod == "DELETE") && len(queryParams) > 0))
+//@   loop 1 invariant count("P:url.") >= old(count("P:url.")) && ((count("P:url.") > old(count("P:url."))) <==> _i1 > 0)
+//@   loop 2 invariant count("P:url.") > old(count("P:url."))
+
+// the request code of one RPC mentions bytes exactly when the RPC sends a body
+//@ func (g *Generator) generateRPCMethodRequest(gf *protogen.GeneratedFile, cfg *rpcMethodConfig)
+//@   requires cfg != nil
+//@   modifies *
+//@   ensures uses_bytes: (count("P:bytes.") > old(count("P:bytes."))) <==> cfg.hasBody
+
+// the import block lists net/url and bytes exactly when asked to
+//@ func (g *Generator) writeImports(gf *protogen.GeneratedFile, needsBytes bool, needsURL bool)
+//@   modifies *
+//@   ensures url_import: (count("P:net/url") > old(count("P:net/url"))) <==> needsURL
+//@   ensures bytes_import: (count("P:bytes") > old(count("P:bytes"))) <==> needsBytes
+
+// ... and it is asked with the answers of the two file-level deciders
+//@ func (g *Generator) generateClientFile(file *protogen.File) (err error)
+//@   requires file != nil && g != nil
+//@   modifies *
+//@   at-call fileNeedsRequestBody requires same_file: arg0 == file
+//@   at-call fileNeedsURLImport requires same_file: arg0 == file
+//@   at-call writeImports requires deciders: arg1 == lastRetAs("fileNeedsRequestBody", bool) && arg2 == lastRetAs("fileNeedsURLImport", bool) && count("fileNeedsURLImport") == old(count("fileNeedsURLImport")) + 1 && count("fileNeedsRequestBody") == old(count("fileNeedsRequestBody")) + 1
+
+// the URL code is emitted from the RPC's own configuration
+//@ func (g *Generator) generateRPCMethodURLBuilding(gf *protogen.GeneratedFile, cfg *rpcMethodConfig)
+//@   requires cfg != nil
+//@   modifies *
+//@   at-call generateURLBuilding requires from_config: arg1 == cfg.fullPath && arg2 == cfg.pathParams && arg3 == cfg.queryParams && arg4 == cfg.httpMethod
+//@   ensures once: count("generateURLBuilding") == old(count("generateURLBuilding")) + 1
